@@ -8,6 +8,7 @@ import (
 	"time"
 
 	"github.com/hashicorp/raft"
+	"github.com/rqlite/rqlite/v10/internal/vhook"
 	"github.com/rqlite/rqlite/v10/snapshot"
 )
 
@@ -73,6 +74,7 @@ func (f *FSMSnapshot) Persist(sink raft.SnapshotSink) (retError error) {
 		fsmSnapshotErrLogger.Printf("failed to persist %s snapshot %s: %v", f.Type, sink.ID(), err)
 		return err
 	}
+	vhook.Point("persist.before_finalizer")
 	if f.Finalizer != nil {
 		return f.Finalizer()
 	}
@@ -81,6 +83,7 @@ func (f *FSMSnapshot) Persist(sink raft.SnapshotSink) (retError error) {
 
 // Release performs any final cleanup once the Snapshot has been persisted.
 func (f *FSMSnapshot) Release() {
+	vhook.Point("fsmsnapshot.release")
 	f.FSMSnapshot.Release()
 	if f.OnRelease != nil {
 		f.OnRelease(f.persistInvoked, f.persistSucceeded)
